@@ -32,6 +32,17 @@ def scenarios(rng, tier):
             if rng.random() < 0.3: s.frame(1, generic(rng.randrange(256), 2, M, M, B, B))
             s.frame(1, query(M, B, seq=rng.randrange(1, 65536)))
             if rng.random() < 0.5: s.frame(1, query(M, B, seq=rng.randrange(1, 65536)))
+    for k in range(6 if tier == 'quick' else 60):
+        A = bytes([2, 0xAA, 0, 0, 3, k & 255]); Bm = bytes([2, 0xBB, 0, 0, 3, k & 255])
+        s.start('rerun_%d' % k); s.lines.append(Cfg(0, mac=A).line()); s.lines.append(Cfg(1, mac=Bm).line())
+        M = mac(1); descs = [(k % 2, 0, mac(4000 + j), Bm) for j in range(1 + k % 3)]
+        s.frame(0, discover(M, gen=5)); s.frame(1, discover(M, gen=5))
+        s.frame(0, emit(M, A, descs, seq=7)); s.op('relay 0 1 00')
+        # the run ends without B having been asked; the next run repeats the very same emission
+        s.frame(1, reset(M, tos=0)); s.frame(0, reset(M, tos=0))
+        s.frame(0, discover(M, gen=6)); s.frame(1, discover(M, gen=6))
+        s.frame(0, emit(M, A, descs, seq=8)); s.op('relay 0 1 00')
+        s.frame(1, query(M, Bm, seq=9))
     for k in range(16 if tier == 'quick' else 300):
         A = bytes([2, 0xAA, 0, 0, 1, k & 255]); Bm = bytes([2, 0xBB, 0, 0, 2, k & 255]); mb = rng.choice([594, 1494, 1514, 576, 614])
         cA = Cfg(0, mac=A, mtu=1500); cB = Cfg(1, mac=Bm, mtu=mb); capb = (mb - 34) // 20
